@@ -3837,6 +3837,11 @@ class CaseNode(Node):
                     all_transitions_empty = set().union(*(decider_dfa.transitions_pointing_to(x) for x in corresponding_finish_states[i]))
                     if len(all_transitions_empty) != 1 and any(x.is_timing_strict() for x in self.case_match_actions[true_backref]):
                         raise UnableToScheduleActionError([i], [x for x in self.case_match_actions[true_backref] if x.is_timing_strict()])
+                    # In a greedy case the finish state may also be part of a longer match from another clause; actions placed on the
+                    # transitions into it would run even when that longer match is the one which ends up being selected.
+                    if any(x.is_timing_strict() for x in self.case_match_actions[true_backref]) and any(
+                            not t.error_handling for x in corresponding_finish_states[i] for t in x.transitions):
+                        raise UnableToScheduleActionError([i], [x for x in self.case_match_actions[true_backref] if x.is_timing_strict()])
                     # Add actions
                     for j in all_transitions_empty:
                         j.attach(*self.case_match_actions[true_backref], prepend=True)
